@@ -109,8 +109,8 @@ PROPS['C17'] = dict(
     assumptions=["prob_to_str and main are encoded in IEEE-754 binary64", "A-STRINT: str(int) of a non-negative int is a non-empty digit string and injective (z3 int.to.str); checked against CPython by the executable contracts",
                  A_EXT],
     trusted_base=['z3 FP theory; cvc5 string theory (--strings-exp) for the peel lemmas'],
-    undecided_clauses=["the final step from the eight peel lemmas to 'two different whole-percent parameter sets never share a file' is the composition of the stages (each stage's conclusion is the next stage's hypothesis); the single nine-field query is beyond both string solvers (100 s), so the composition is argued in DESIGN.md and exercised by the executable contracts"],
-    level_text="prob_to_str is verified in Float64 for every k = 1..99 (99 ground instances of the real function: exhaustive over the finite domain) to return str(k) for the double nearest k/100; main is symbolically executed and the file name passed to write_robots is proved equal to the tagged concatenation inputs/robot_<seed>_w<width>_l<length>_r<max>_rb<P>_lb<P>_tb<P>_lt<P>[_force_down].py with the right parameter in every field; field-by-field injectivity of that shape is proved as eight string lemmas by cvc5.",
+    undecided_clauses=["that the eight digit strings of a name are str(seed), str(width), ... for the INTEGERS passed needs 'str(int >= 0) is a non-empty digit string' (first half of A-STRINT: undecided by z3 and cvc5 over str.from_int, assumed; the injectivity half IS discharged by z3 as `strint-injective`)"],
+    level_text="prob_to_str is verified in Float64 for every k = 1..99 (99 ground instances of the real function: exhaustive over the finite domain) to return str(k) for the double nearest k/100; main is symbolically executed and the file name passed to write_robots is proved equal to the tagged concatenation inputs/robot_<seed>_w<width>_l<length>_r<max>_rb<P>_lb<P>_tb<P>_lt<P>[_force_down].py with the right parameter in every field; field-by-field injectivity of that shape is proved as eight string lemmas by cvc5, and the nine-field statement itself (equal names => equal seed, width, length, maximum reward, four percentages and flag strings) is discharged as one ground query from instances of those eight lemmas generated from the same templates (`compose:nine-fields`); str(int) is injective on non-negative ints (z3).",
     level_note="Trusted: z3 (FP), cvc5 (strings), the encoder, argparse's assumed contract. Exhaustive for the 99 whole percentages; other probabilities are named by rounding (not claimed injective).",
 )
 
